@@ -66,3 +66,33 @@ Theorem C11_bool_is_support_of_real_sum_products :
     = supp (env_of ereal_ops (sum_products_nonrec ereal_ops G w order) X xi).
 Proof. exact supp_sum_products_nonrec. Qed.
 Print Assumptions C11_bool_is_support_of_real_sum_products.
+
+(** ** The meaning of the option [tol] (fixed-point method): an absolute stopping distance.
+    For the scalar system x = a x + c (grammar X -> c | a X) with 0 <= a < 1, the iterate at
+    which the loop of fixed_point stops (distance to the next iterate <= tol) lies within
+    tol / (1 - a) below the least fixed point c / (1 - a), whatever the magnitude of the values. *)
+Require Import Fggs.Model.Tolerance Fggs.Proofs.Tolerance_proofs.
+From Coq Require Import QArith.
+
+Theorem C11_fixed_point_stop_bound :
+  forall a c : Q, (0 <= a)%Q -> (a < 1)%Q -> (0 <= c)%Q ->
+  forall k tol, (Tolerance.iter a c (S k) - Tolerance.iter a c k <= tol)%Q ->
+    (xstar a c - tol / (1 - a) <= Tolerance.iter a c k)%Q /\ (Tolerance.iter a c k <= xstar a c)%Q.
+Proof. exact stop_bound. Qed.
+Print Assumptions C11_fixed_point_stop_bound.
+
+(** the check function accepts the exact iterate at which the loop stops ... *)
+Theorem C11_tol_check_sound :
+  forall a c tol k, (0 <= a)%Q -> (a < 1)%Q -> (0 <= c)%Q -> (0 <= tol)%Q ->
+    (Tolerance.iter a c (S k) - Tolerance.iter a c k <= tol)%Q ->
+    tol_check (a, c, tol, 0%Q, Tolerance.iter a c k) = 0%nat.
+Proof. exact tol_check_sound. Qed.
+Print Assumptions C11_tol_check_sound.
+
+(** ... and rejects every value further below the fixed point than the bound plus the rounding allowance *)
+Theorem C11_tol_check_rejects :
+  forall a c tol delta obs, (0 <= a)%Q -> (a < 1)%Q -> (0 <= c)%Q -> (0 <= tol)%Q ->
+    (obs < xstar a c - tol / (1 - a) - delta)%Q ->
+    tol_check (a, c, tol, delta, obs) = 1%nat.
+Proof. exact tol_check_rejects. Qed.
+Print Assumptions C11_tol_check_rejects.
